@@ -33,6 +33,15 @@ Theorem C03_linux_methods_sound : forall w, base_ok opt_half w ->
 Proof. exact linux_methods_sound. Qed.
 Print Assumptions C03_linux_methods_sound.
 
+(* ... and any HISTORY of such calls on one object (the object's fields carry over from call to call, faults may sit
+   anywhere in the history): every call of the history ends as the property allows *)
+Theorem C03_history_sound : forall w, base_ok opt_half w ->
+  forall ps, (forall p, In p ps -> In p (block_scripts ++ linux_scripts)) ->
+  forall s, s_cache s = false ->
+  Forall (fun rs => allowed (fst rs) (gone w (snd rs))) (run_hist w ps s).
+Proof. exact history_sound. Qed.
+Print Assumptions C03_history_sound.
+
 (* parent(), parents(), children(), children(recursive=True), process_iter(attrs) -- in worlds where the OTHER
    processes (parent, children, listed pids) may vanish at any access too: the same, except that an AccessDenied
    raised by a query on another Process object carries that process's pid; NoSuchProcess / ZombieProcess about
